@@ -180,28 +180,28 @@ func Fatal(a ...interface{}) {
 	os.Exit(2)
 }
 
-// SiteSig turns "func|file:line" into "func|<trimmed source text of that line>" so that a
+// SiteSig turns "func|file:line" into "func|file|<trimmed source text of that line>" so that a
 // known-finding signature survives line shifts.  repo is the root of the gopacket tree.
 func SiteSig(repo, site string) string {
 	i := strings.LastIndex(site, "|")
 	if i < 0 {
-		return site
+		return site + "||"
 	}
 	fn, loc := site[:i], site[i+1:]
 	j := strings.LastIndex(loc, ":")
 	if j < 0 {
-		return site
+		return fn + "|" + loc + "|"
 	}
 	file, lineS := loc[:j], loc[j+1:]
 	var line int
 	fmt.Sscanf(lineS, "%d", &line)
 	b, err := os.ReadFile(repo + "/" + file)
 	if err != nil {
-		return fn + "|" + file
+		return fn + "|" + file + "|"
 	}
 	ls := strings.Split(string(b), "\n")
 	if line < 1 || line > len(ls) {
-		return fn + "|" + file
+		return fn + "|" + file + "|"
 	}
-	return fn + "|" + strings.TrimSpace(ls[line-1])
+	return fn + "|" + file + "|" + strings.TrimSpace(ls[line-1])
 }
